@@ -15,9 +15,17 @@ Inductive lsig :=
 | SigGrainsRandom (ncomp nsizes nnorm : nat)
 | SigGrainsDeflected (ncomp nsizes nnorm ndefl nbasis : nat)
 | SigSpreading (ridges : list nat) (nvel : nat)                       (* points per ridge; velocities listed *)
+| SigSubducting (ridges : list nat) (rows : list nat)                 (* points per ridge; entries per row of the subducting velocity table *)
 | SigSection (ncoords coordinate nseg_default nseg_section : nat).
 
 Definition sum_list (l : list nat) : nat := fold_right Nat.add 0 l.
+
+Fixpoint nat_list_eqb (a b : list nat) : bool :=
+  match a, b with
+  | [], [] => true
+  | x :: a', y :: b' => (x =? y) && nat_list_eqb a' b'
+  | _, _ => false
+  end.
 
 Definition sig_ok (s : lsig) : bool :=
   match s with
@@ -28,6 +36,9 @@ Definition sig_ok (s : lsig) : bool :=
   | SigGrainsRandom nc ns nn => (nc =? ns) && (nc =? nn)
   | SigGrainsDeflected nc ns nn nd nb => (nc =? ns) && (nc =? nn) && (nc =? nd) && (nc =? nb)
   | SigSpreading ridges nv => (nv =? 1) || (nv =? sum_list ridges)
+  | SigSubducting ridges rows =>
+      (* mass_conserving.cc:270-276: a table whose first row has more than one entry must have the shape of the ridge coordinates *)
+      if 1 <? hd 0 rows then match ridges with [] => true | _ => nat_list_eqb rows ridges end else true
   | SigSection ncoords coordinate nd ns => (coordinate <? ncoords) && (ns =? nd)
   end.
 
